@@ -49,6 +49,7 @@ def reg(pid, **kw):
     d.update(kw)
     if "extra_sources" not in kw and not d.get("custom") and not d.get("roles") and not d.get("maker") \
             and d["mc"] and d["mc"][0][0] == "core":
+        d.setdefault("gen_mc", "core")
         d["extra_sources"] = (tlcgen.tlc_traces,)
     d["prefixes"] = d["prefixes"] or [pid + "."]
     P[pid] = d
@@ -83,16 +84,18 @@ reg("C01", exc_ops=WRITE_OPS, nontrivial=nt_pages,
 reg("C02", exc_ops=ALL_OPS, nontrivial=nt_pages, hook="lookup",
     profile={"long": 0.6, "raw": 0.5, "prefixy": 0.5}, title="Findability / TST invariants")
 reg("C03", exc_ops={"AddLinks", "IndexBatchCrawl"}, nontrivial=nt_links, hook="links",
+    mc=[("core", 4, 5), ("links", 4, 6)], gen_mc="links",
     weights={"AddLinks": 24, "IndexBatchCrawl": 30, "AddPage": 10, "Clear": 0},
     profile={"nlrus": 9, "raw": 0.1, "long": 0.2}, n=(160, 2000), title="Link multigraph")
-reg("C04", exc_ops=WE_OPS, nontrivial=nt_we, hook="resolve",
+reg("C04", exc_ops=WE_OPS, nontrivial=nt_we, hook="resolve", mc=[("core", 4, 5), ("we", 4, 5)], gen_mc="we",
     weights={"CreateWe": 14, "DeleteWe": 8, "AddPrefix": 10, "RemovePrefix": 8, "MovePrefix": 8,
              "AddPage": 14},
     profile={"raw": 0.0, "long": 0.15}, title="Longest-prefix resolution")
 reg("C05", exc_ops=set(), nontrivial=nt_we, hook="wepages", obs_fail=True,
     weights={"CreateWe": 12, "AddPrefix": 8, "MovePrefix": 5, "AddRule": 6},
     profile={"raw": 0.0, "long": 0.3, "nlrus": 12}, title="Webentity page sets")
-reg("C06", exc_ops=WRITE_OPS | RULE_OPS, nontrivial=nt_we, hook="potential",
+reg("C06", exc_ops=WRITE_OPS | RULE_OPS, nontrivial=nt_we, hook="potential", mc=[("core", 4, 5), ("we", 4, 5)],
+    gen_mc="we",
     weights={"AddRule": 12, "RemoveRule": 4, "AddPage": 25},
     profile={"raw": 0.0, "long": 0.15, "adversarial": 0.4}, title="Automatic creation")
 reg("C07", exc_ops=set(), nontrivial=nt_links, hook="network", obs_fail=False,
@@ -115,10 +118,11 @@ reg("C11", exc_ops={"Reopen", "Clear"}, nontrivial=nt_pages, hook="life",
     roles=[("file", ()), ("file", ("Reopen",))], pairname="C11.twin", prefixes=["C11."],
     weights={"Reopen": 22, "Clear": 5, "AddRule": 6, "CreateWe": 8},
     profile={"raw": 0.1, "long": 0.3, "nlrus": 10}, n=(40, 500), steps=(14, 22), title="Close/reopen/clear")
-reg("C12", exc_ops=set(), nontrivial=nt_we,
+reg("C12", exc_ops=set(), nontrivial=nt_we, mc=[("core", 4, 5), ("we", 4, 5)], gen_mc="we",
     weights={"CreateWe": 12, "DeleteWe": 8, "Reopen": 10, "AddRule": 8, "Clear": 3},
     profile={"raw": 0.0, "long": 0.1}, title="Webentity ids")
-reg("C13", exc_ops=set(), nontrivial=nt_we, hook="hierarchy", obs_fail=False,
+reg("C13", exc_ops=set(), nontrivial=nt_we, hook="hierarchy", obs_fail=False, mc=[("core", 4, 5), ("we", 4, 5)],
+    gen_mc="we",
     weights={"CreateWe": 14, "AddPrefix": 10, "MovePrefix": 8, "AddRule": 8, "AddPage": 25, "RemovePrefix": 4},
     profile={"raw": 0.0, "long": 0.1, "nlrus": 14, "extend": 0.25}, title="Hierarchy / pruning flag")
 reg("C14", exc_ops=set(), nontrivial=nt_pages, hook="readonly", obs_fail=False,
